@@ -201,7 +201,7 @@ def audit_props(pid, extra_files=()):
 
 def run_model(lines, timeout=1800):
     """lines: iterable of already formatted case lines.  Returns list of output lines."""
-    exe = os.path.join(COQ, "extract", "cmrun")
+    exe = os.environ.get("VERIF_CMRUN") or os.path.join(COQ, "extract", "cmrun")
     data = "\n".join(lines) + "\n"
     p = subprocess.run([exe], input=data, stdout=subprocess.PIPE, stderr=subprocess.PIPE, text=True,
                        timeout=timeout)
@@ -237,9 +237,10 @@ def coq_shard(cases, tag, timeout=600):
     def ggl(gs):
         return "[" + "; ".join(gl(g) for g in gs) + "]"
     body = ";\n ".join("(%d, %s, %s)" % (c, ggl(a), ggl(e)) for c, a, e in cases)
-    src = ("From CM Require Import lib.Prelude model.Run.\n"
+    runmod, runfn = (os.environ.get("VERIF_RUNMOD") or "Run:run").split(":")
+    src = ("From CM Require Import lib.Prelude model.RunBase model.%s.\n"
            "Definition cases : list (Z * io * io) := [\n %s\n].\n"
-           "Eval vm_compute in (mismatches cases).\n" % body)
+           "Eval vm_compute in (mismatches_with %s cases).\n" % (runmod, body, runfn))
     d = os.path.join(BUILD, "shard_%s_%d" % (tag, os.getpid()))
     os.makedirs(d, exist_ok=True)
     p = os.path.join(d, "cases.v")
